@@ -42,6 +42,10 @@ def gen_cases(ctx, tier=None):
     for d in docgen.string_documents(rng, None if tier == "thorough" else 900):
         docs.append(d)
         switches["string-adversary-stream"] += 1
+    # well-formed documents in a non-canonical encoding (one defect at one node): none may load
+    for d in docgen.noncanonical_documents(rng, 400 if tier == "quick" else 4000):
+        docs.append(d)
+        switches["non-canonical-encoding-stream"] += 1
     return ["c%d %s" % (i, d.hex()) for i, d in enumerate(docs)], dict(switches)
 
 
@@ -85,7 +89,7 @@ def correspondence(ctx):
     dist = {"documents": len(cases), "accepted": len(acc), "accepted_multi_file": multi, "switches": switches}
     return {
         "evaluations": len(cases), "distinct_nontrivial": len(set(c.split()[1] for c in acc)),
-        "rule": "structured documents (well-formed template, 0-3 named switches flipped, decoy keys adjacent in sort order, u64 boundaries, .utf-8 variants), a chaotic stream, a UTF-8 boundary stream; compared: Err vs every loaded field incl. the info-hash; non-trivial = distinct accepted document",
+        "rule": "structured documents (well-formed template, 0-3 named switches flipped, decoy keys adjacent in sort order, u64 boundaries, .utf-8 variants), a chaotic stream, a UTF-8 boundary stream, well-formed documents in a non-canonical encoding (zero-padded string length, leading zero / -0 / + in an integer, keys out of order, repeated key, trailing bytes - at any node); compared: Err vs every loaded field incl. the info-hash; non-trivial = distinct accepted document",
         "samples": [{"case": c[:300], "impl": impl.get(c.split()[0]), "model": model.get(c.split()[0])} for c in (acc[0], acc[len(acc) // 2], cases[3])],
         "distribution": dist, "disagreements": len(dis), "findings": findings, "broken": broken,
         "explanation": "load_iff_wf / load_fields_faithful proved over TorrentModel.v + differential run of the extracted model (with the Gallina SHA-1) against Torrent::from_bytes",
